@@ -11,6 +11,8 @@ Inductive lclause :=
 | ClSinkRunning       (* a sink invocation was still in progress (it ended) after the barrier was established *)
 | ClSyncAfterStop     (* an EmitSync that began after the barrier was not refused *)
 | ClStopGrace         (* a Stop returned only because its grace period expired (some goroutine could not be joined) *)
+| ClStopOverGrace     (* a Stop call was still running after its grace period plus the harness's margin: it was held by
+                         something other than the grace-bounded join (a lock kept across user code, ...) *)
 | ClStuck             (* a call did not return (harness patience) *)
 | ClLeak              (* more goroutines after Stop than before New *)
 | ClLoserEarly.       (* literal reading: a sink invocation began after SOME Stop call had returned (a Stop that lost the
@@ -36,6 +38,7 @@ Definition lmon_ev (m : lmon) (e : levent) : lmon + lclause :=
   | ESyncBegin t => if m_bar m then inl {| m_in := m_in m; m_ret := m_ret m; m_bar := true; m_late := t :: m_late m |} else inl m
   | ESyncEnd t ok => if ok && existsb (Nat.eqb t) (m_late m) then inr ClSyncAfterStop else inl m
   | ETimeout => inr ClStuck
+  | EStopOver _ => inr ClStopOverGrace
   | EGoroutines b f => if b <? f then inr ClLeak else inl m
   | _ => inl m
   end.
